@@ -13,34 +13,48 @@ COQ_CASE_TYPE = "case"
 COQ_RUN = "run_case"
 TABLE_CONSTRUCTS = ["dc_add_row_code", "dc_type_choice_code", "dc_dispatch_code", "dc_collect_skeleton"]
 RULE = ("histories = one reporter dictionary (model / agent / agent-type reporters in the four forms attribute name, "
-        "function or partial, bound method, [function, args]; tables) + a sequence of model-attribute writes (ints, None, "
-        "fresh lists, aliases, in-place appends, deletions), agent creations (6 classes in a 3-level hierarchy) and "
-        "removals, agent attribute writes, steps, 0-3 collects per step, add_table_row calls (complete, incomplete with "
-        "and without ignore_missing, unknown table) and DataFrame constructions; the whole collector state is observed "
-        "after every operation; non-trivial = at least 2 collects and one reporter; distinct = by SHA1 of the history")
+        "function or partial, bound method, [function, args]; tables incl. a table without columns) + a sequence of "
+        "model-attribute writes (ints, None, fresh lists, aliases, in-place appends, deletions), agent creations (6 classes in a "
+        "3-level hierarchy, one with a mixin after the framework base, one falsy by __bool__, one by __len__) and removals, "
+        "agent attribute writes, steps, 0-3 collects per step, add_table_row calls (complete, incomplete with and without "
+        "ignore_missing, unknown table, extra keys) and DataFrame constructions (each built twice); four streams per run: "
+        "420 random histories, a 150-case slice of the targeted sweep (reporter forms x levels, every subset of present "
+        "columns, class populations with removals, frames of empty collectors), 60 histories with reporters that raise at a "
+        "collect, 80 histories with values of other immutable types (bool, str, tuple, Decimal, Fraction, frozenset, floats "
+        "incl. 0.1 / 1e300 / the smallest denormal, ints beyond 2^53) at agent, agent-type, model and table level; the whole "
+        "collector state is observed after every operation; a second DataCollector built from the same dictionaries collects "
+        "at the end; non-trivial = at least 2 collects and one reporter; distinct = by SHA1 of the history")
 TRUSTED_BASE = [
     "Coq 8.16.1 kernel (coqc); vm_compute used for finite facts and for evaluating the model in the correspondence",
-    "no axioms: Print Assumptions reports 'Closed under the global context' for every C12 theorem",
-    "harness/props/C12.py driver+observer and the Gallina literal printer (T2, differential testing, not a proof)",
-    "harness/pyexpr.py + harness/tables/datacollect_batch_code.py (code-level T1): add_table_row's rejection test and cell, "
-    "_record_agenttype's agent-source choice and collect's reporter dispatch chain are translated from the working tree on every "
-    "run and bridged to the model (Proofs/DataCollectorBridge.v); the remaining statements of collect/_record_agents are pinned verbatim",
-    "Model/DataCollector.v is a hand transcription of mesa/datacollection.py; dict = insertion-ordered association list, "
-    "deepcopy = reading the store into an immutable value, reporters = terms of a small DSL built identically as Python callables",
-    "pandas is external: the frames (index names, column labels and order, row order, values) are modelled as pure list "
-    "functions of the records (model_frame / agent_frame / type_frame / table_frame), compared with pandas' result by T2 on "
-    "every Frames operation; C12_frames_lossless is about the modelled frames",
+    "no axioms: Print Assumptions reports 'Closed under the global context' for all 26 theorems of Properties/C12.v",
+    "harness/props/C12.py driver+observer and the Gallina literal printer (T2, differential testing, not a proof); values of "
+    "non-int types are injective value codes in the histories and in the Z-valued model, mapped to Python objects by the driver",
+    "harness/pyexpr.py + harness/tables/datacollect_batch_code.py (code-level T1, on alpha-normalised functions: names of locals, "
+    "docstrings, comments, formatting and exception messages do not matter): add_table_row's rejection test and per-column cell "
+    "(gen_add_row_reject, gen_add_row_cells), _record_agenttype's three-way agent-source choice (gen_type_choice) and collect's "
+    "isinstance dispatch chain (gen_dispatch) are translated from the working tree on every run and bridged to the model in "
+    "Proofs/DataCollectorBridge.v (add_row_bridge, type_agents_bridge, dispatch_bridge, robust to harmless rewrites); what "
+    "remains of collect / _record_agents / the head of _record_agenttype is a normalised statement skeleton (gen_collect_skeleton_ok)",
+    "Model/DataCollector.v is a hand transcription of mesa/datacollection.py incl. every failing path; dict = insertion-ordered "
+    "association list, deepcopy = reading the store into an immutable value, reporters = terms of a small DSL built identically "
+    "as Python callables",
+    "pandas is external: the four frames (index names, column labels and order, row order, values) are modelled as pure list "
+    "functions of the records and compared with pandas' own result by T2 on every Frames operation",
     "Uint63 primitive hash only in scratch Cases files, never under a theorem",
 ]
 ASSUMPTIONS = [
-    "reporter results are ints, None or lists of ints; agent-level values are immutable (ints / None)",
+    "model-level reporter results are ints, None, lists of ints or one immutable value of another type; agent-level values are "
+    "immutable (mutable ones are stored by reference by design and not compared)",
     "agent-type reporters are judged when the key class has no subclassed instances or no direct instances registered (quantifier)",
-    "frames: NaN is read as None and integral floats as ints (pandas' own column conversion is not part of the statement); "
-    "values of other immutable types (bool, str, tuple, Decimal, Fraction, frozenset, dyadic floats, ints beyond 2^53; value "
-    "codes 10000.. in the histories and the Z-valued model) must come back as the very same value and type",
-    "a collect during which a reporter itself raises: the oracle only demands that tables and the records of other steps stay "
+    "frames: NaN is read as None and integral floats as ints (pandas' own unification of a numeric column is not part of the "
+    "statement: ints next to floats, ints next to None; for the same reason ints beyond 2^53 are never put next to a None or a "
+    "float in one column); every other value must come back as the very same value and type",
+    "a collect during which a reporter itself raises: the oracle demands that tables and the records of other steps stay "
     "untouched and no model_vars list shrinks or grows by more than one; the exact state left behind (C12_collect_raises_state) "
-    "is compared model-vs-implementation by T2 (60 dedicated histories per quick run)",
+    "is compared model-vs-implementation by T2",
+    "observation, not a verdict: after a model reporter j >= 1 raised, the model_vars lists are ragged for good and "
+    "get_model_vars_dataframe raises ValueError (C12_raising_reporter_leaves_ragged_model_vars; candidate key "
+    "C18/datacollector/collect-raising-reporter)",
 ]
 E_ATTR, E_VALUE, E_RUNTIME, E_EXC, E_USERWARNING = 1, 2, 3, 4, 5
 CLASSES = [0, 1, 2, 3, 4]          # creatable; 5 = mesa.Agent; 9 = not an Agent class
@@ -241,17 +255,28 @@ def _gen_exotic_case(rng):
     fam = rng.choice([EXO_OBJECT, EXO_OBJECT, EXO_OBJECT + [3, 7], EXO_FLOAT + [3], EXO_BIGINT + [4]])
     cfg = {"mreps": [[0, ["fun", False, ["steps"]]]] if rng.random() < 0.5 else [], "treps": [], "tables": [],
            "areps": [[0, rng.choice([["attr", 4], ["fun", ["attr", 4]], ["method", ["attr", 4]]])]]}
+    model_level = rng.random() < 0.5          # the same family at model level (model.m2) and in table cells
+    if model_level:
+        cfg["mreps"].append([1, rng.choice([["attr", 2], ["fun", False, ["attr", 2]], ["method", ["attr", 2]]])])
+        cfg["tables"] = [[0, [0, 1]]] + ([[1, []]] if rng.random() < 0.3 else [])    # sometimes a table without columns
     if rng.random() < 0.5:
         cfg["areps"].append([1, rng.choice([["fun", ["id"]], ["attr", 0], ["attr", 4]])])
     if rng.random() < 0.5:
         cfg["treps"] = [[rng.choice([1, 2, 5]), [[0, rng.choice([["attr", 4], ["fun", ["attr", 4]]])]]]]
     ops, live, nxt = [], [], 1
+    if model_level:
+        ops.append(["set", 2, rng.choice(fam)])
     for _ in range(rng.randint(1, 3)):
         ops.append(["create", rng.choice([0, 2, 3]), [[0, nxt], [4, rng.choice(fam)]]])
         live.append(nxt)
         nxt += 1
     for _ in range(rng.randint(4, 12)):
         p = rng.random()
+        if model_level and rng.random() < 0.25:
+            ops.append(rng.choice([["set", 2, rng.choice(fam)], ["addrow", 0, [[0, rng.choice(fam)], [1, rng.choice(fam)]], False],
+                                   ["addrow", 0, [[1, rng.choice(fam)]], fam[0] not in EXO_BIGINT],   # (ints beyond 2^53 next to a
+                                   # None cell: pandas itself turns that column into float64 - not generated, see report)
+                                   ["addrow", 1, [], False]]))
         if p < 0.3:
             ops.append(["collect"])
         elif p < 0.45:
@@ -377,8 +402,13 @@ def _classes():
     if _CLS is None:
         import mesa
 
-        class A(mesa.Agent):
-            pass
+        class _Mixin:            # a mixin placed AFTER the framework base in the MRO
+            def describe(self):
+                return "mixin"
+
+        class A(mesa.Agent, _Mixin):
+            def __bool__(self):   # an agent whose truth value is False (`if agent:` instead of `is not None`)
+                return False
 
         class Base(mesa.Agent):
             pass
@@ -387,7 +417,8 @@ def _classes():
             pass
 
         class Sub2(Base):
-            pass
+            def __len__(self):    # ... and one that is falsy through __len__
+                return 0
 
         class SubSub(Sub1):
             pass
@@ -507,12 +538,14 @@ def _exotic():
         from fractions import Fraction
 
         _EXOTIC = [True, False, "s", "", (1, "b"), Decimal("1.10"), Decimal("2"), Fraction(1, 3), Fraction(2, 1),
-                   frozenset({1, 2}), frozenset(), 0.5, 0.25, -1.5]
+                   frozenset({1, 2}), frozenset(), 0.5, 0.25, -1.5, 0.1, 1e300, 5e-324]
     return _EXOTIC
 
 
 EXO_OBJECT = [10000 + i for i in range(11)]      # force an object column: bool, str, tuple, Decimal, Fraction, frozenset
-EXO_FLOAT = [10011, 10012, 10013]                # dyadic floats (a numeric column; ints in it come back as integral floats)
+EXO_FLOAT = [10011, 10012, 10013, 10014, 10015, 10016]   # floats incl. non-dyadic 0.1, 1e300, the smallest denormal: no arithmetic is
+#                                                    done on them, so they must come back bit-exact (a numeric column; ints in it
+#                                                    come back as integral floats)
 EXO_BIGINT = [2 ** 60 + 1, -(2 ** 55 + 3), 2 ** 53 + 1]   # beyond the float mantissa (an int64 column)
 
 
@@ -682,7 +715,7 @@ def run_impl(case):
         code = [0]
         try:
             if kind == "set":
-                setattr(model, _mname(op[1]), op[2])
+                setattr(model, _mname(op[1]), _obj(op[2]))
             elif kind == "none":
                 setattr(model, _mname(op[1]), None)
             elif kind == "newlist":
@@ -814,7 +847,8 @@ def run_impl(case):
             elif kind == "addrow":
                 t, row, ign = op[1], op[2], op[3]
                 tcols = dict(cfg["tables"]).get(t)
-                rowd = {f"c{c}": v for c, v in row}
+                rowd = {f"c{c}": _obj(v) for c, v in row}
+                rowd_before = dict(rowd)
                 must_reject = tcols is None or (not ign and any(c not in dict(row) for c in tcols))
                 try:
                     dc.add_table_row(f"t{t}", rowd, ignore_missing=ign)
@@ -822,6 +856,8 @@ def run_impl(case):
                 except Exception as e:  # noqa: BLE001
                     raised = e
                 after = _snapshot(dc, clsnum)
+                if rowd != rowd_before or list(rowd) != list(rowd_before):
+                    fail("C12/add_table_row/mutated-caller-row", i, f"add_table_row changed the caller's row dict {rowd_before} -> {rowd}")
                 if raised is not None:
                     code = [-1, _exc_kind(raised)]
                     if not must_reject:
@@ -842,6 +878,9 @@ def run_impl(case):
                             sh["tb"][j] = (tt, [(c, vals + [dict(row).get(c)]) for c, vals in cols])
             elif kind == "frames":
                 code = [7] + _obs_frames(dc, cfg, cls, sh, i, fail)
+                again = _obs_frames(dc, cfg, cls, sh, i, lambda *a: None)   # a second construction without any change in between
+                if [7] + again != code:
+                    fail("C12/frames/not-repeatable", i, "building the DataFrames twice in a row gave different frames")
             else:
                 raise ValueError(kind)
         except Exception as e:  # noqa: BLE001
@@ -870,6 +909,26 @@ def run_impl(case):
         if any(f["op"] == i for f in failures):
             sh = {k: [(a, list(b)) for a, b in v] for k, v in now.items()}
         obs.append(code if kind == "frames" else code + _enc_state(now))
+    # the SAME reporter dictionaries / table column lists handed to a second collector: collecting with it must not
+    # disturb the first one (no state shared through the caller's objects), and the caller's dictionaries stay as they were
+    try:
+        twin = DataCollector(model_reporters=mreps or None, agent_reporters=areps or None,
+                             agenttype_reporters=treps or None, tables=tables or None)
+        final = _snapshot(dc, clsnum)
+        try:
+            twin.collect(model)
+            for t_, cols_ in tables.items():
+                twin.add_table_row(t_, {c_: 1 for c_ in cols_})
+        except Exception:  # noqa: BLE001  (a reporter of the history may raise; not judged here)
+            pass
+        if _snapshot(dc, clsnum) != final:
+            fail("C12/collect/shared-state-between-collectors", len(case["ops"]) - 1,
+                 "a second DataCollector built from the same reporter dictionaries changed the first one's records when it collected")
+        if list(mreps) != [f"r{n}" for n, _ in cfg["mreps"]] or list(areps) != [f"r{n}" for n, _ in cfg["areps"]] \
+                or {k: list(v) for k, v in tables.items()} != {f"t{t}": [f"c{c}" for c in cols] for t, cols in cfg["tables"]}:
+            fail("C12/collect/mutated-caller-reporters", len(case["ops"]) - 1, "the reporter / table dictionaries passed to DataCollector were changed")
+    except Exception as e:  # noqa: BLE001
+        fail("C12/collect/shared-state-between-collectors", len(case["ops"]) - 1, f"second collector: {type(e).__name__}: {e}")
     return {"obs": obs, "failures": failures}
 
 
@@ -1073,15 +1132,27 @@ def nontrivial(case):
     return ncol >= 2 and bool(cfg["mreps"] or cfg["areps"] or cfg["treps"])
 
 
-LEVEL_TEXT = ("Machine-checked Coq theorems over a Gallina transcription of DataCollector.collect / _record_agents / "
-              "_record_agenttype / add_table_row: after every history the collector state is a function of the list of "
-              "moments at which collect succeeded and of the accepted table rows (one value per model reporter per collect, "
-              "the value then; under each step the rows of the last collect made at that step, one per registered agent in "
-              "registry order with its unique_id; agent-type rows = the agents of the class; tables column-aligned, "
-              "rejected add_table_row leaves the collector unchanged). The model is tied to the code by differential "
-              "evaluation on random and exhaustive small histories (T2); an independent oracle states the property on the "
-              "implementation's own state and frames.")
-LEVEL_NOTE = ("Theorems are about the model; pandas frames are compared by T2 and the oracle only. Trusted: Coq kernel, the "
-              "driver/observer, CPython dict/deepcopy semantics as modelled. No axioms.")
-TECHNIQUE = "Coq proof (induction over histories, refinement to a moments spec, closed under global context) + vm_compute correspondence"
+LEVEL_TEXT = ("26 machine-checked Coq theorems (closed under the global context) over a Gallina transcription of DataCollector "
+              "(collect with validation, dispatch, partial appends on exceptions; _record_agents / _record_agenttype; add_table_row; the four "
+              "DataFrame constructions). For ALL histories: the collector state is a function of the collect moments - C12_refinement "
+              "(reporters that do not raise: one value per model reporter per collect, the value then; under each step the rows of the last "
+              "collect made at that step, one per registered agent in registry order with its unique_id; agent-type rows = the agents of the "
+              "class, = the isinstance members within the quantifier; tables column-aligned) and C12_refinement_general (no hypothesis: "
+              "failed collects included, each classified as validation / model reporter j / agent reporter / agent-type failure) with "
+              "C12_collect_raises_state giving exactly the state a raising collect leaves; later model mutation never changes the collector "
+              "(C12_immune_to_later_mutation, unconditional); a rejected add_table_row leaves everything unchanged (C18_*); the frames are "
+              "lossless (C12_frames_lossless, C12_table_frame_rows: index names, columns, rows regroup to the records, None for "
+              "ignore_missing cells). Six of the theorems are stated about code regenerated from the working tree on every run (code-level "
+              "T1: add_table_row, the agent-source choice, the dispatch chain, a normalised statement skeleton for the rest). The model is "
+              "tied to the code by that translation and by differential evaluation of model vs implementation after every operation of "
+              "random, exhaustive-small and special-purpose histories (T2, frames included); an independent oracle states the property on "
+              "the implementation's own state and frames and supplies the failing input.")
+LEVEL_NOTE = ("Theorems are about the model. Fixed in /repo by this check's findings: add_table_row half-writes (validated first now), "
+              "agent-type reporters of a base class whose direct instances were all removed, nonsense frame from an empty records "
+              "iterator. Recorded as observation only: ragged model_vars after a raising model reporter. Oracle/T2-only: pandas itself, "
+              "values of non-int types (value codes in the model), a second collector sharing the caller's dictionaries, the caller's row "
+              "dict staying unmodified. Trusted: Coq kernel, pyexpr translator, the driver/observer, CPython dict/deepcopy semantics as "
+              "modelled. No axioms.")
+TECHNIQUE = ("Coq proof (induction over histories, refinement to a collect-moments spec with and without raising reporters, invariants, "
+             "closed under global context) + code-level T1 translation with bridge lemmas + vm_compute correspondence + independent oracle")
 DESIGN_REF = "DESIGN.md section 4, C12"
